@@ -119,3 +119,8 @@ Proof. exact tie_get_ssh_version. Qed.
 Theorem c14_tie_between : forall prod sver spatch vfrom vtill,
   between prod sver spatch vfrom vtill = src_between_versions vfrom vtill (compare_version prod sver spatch vfrom) (compare_version prod sver spatch vtill).
 Proof. exact tie_between. Qed.
+(* the patch-level comparison (Dropbear `test` builds, OpenSSH p-levels, the p1 = base rule, the final three-way result) is the block of
+   Software.compare_version as it reads now; the four regular-expression matches stay modelled (is_test, p_digit: correspondence) *)
+Theorem c14_tie_patch_cmp : forall prod spatch opatch,
+  patch_cmp prod spatch opatch = src_patch_cmp prod spatch opatch (is_test opatch) (is_test spatch) (p_digit opatch) (p_digit spatch).
+Proof. exact tie_patch_cmp. Qed.
